@@ -20,7 +20,7 @@ func (c *Chain) NsxDryRun(signers []util.Uint160, h util.Uint160, method string,
 	for _, s := range signers {
 		tx.Signers = append(tx.Signers, transaction.Signer{Account: s, Scopes: transaction.Global})
 	}
-	v, err := c.E.TestInvoke(tx)
+	v, err := c.TestInvoke(tx)
 	if err != nil {
 		return false, nil, err.Error()
 	}
